@@ -615,4 +615,110 @@ theorem SOFO.step_inv (n : Nat) (c c' : Loop SOFO) (l : Label) (h : SOFO.Inv c)
     have hgd := SOFO.childDisable_good c.m c.kids name h.minv (h.live hst')
     exact SOFO.afterCall_inv n true [] c _ h.glue hst' hgd.1 hgd.2.1 (fun _ => hgd.2.2)
 
+
+/-! ### once shutting down, the recorded reason is final -/
+
+theorem SOFO.handle_m (n : Nat) (bits : List Bool) (c : Loop SOFO) (a : Action) :
+    (handleAction sofoMachine (n + 2) bits c a).1.m.shutdown = c.m.shutdown ∧
+    (handleAction sofoMachine (n + 2) bits c a).1.m.shutdownReason = c.m.shutdownReason := by
+  rw [sofo_handle]
+  cases ha : a.act with
+  | nothing => simp
+  | terminate => simp
+  | terminateChildren => simp only; split <;> simp
+  | start =>
+    simp only
+    split
+    · simp
+    · have := SOFO.childStarted_fields c.m a.spec c.nextPid
+      simp [this.1, this.2.1]
+
+theorem SOFO.afterCall_m (n : Nat) (fromApi : Bool) (bits : List Bool) (c : Loop SOFO) (r : SOFO × Res) :
+    (afterCall sofoMachine (n + 2) fromApi bits c r).m.shutdown = r.1.shutdown ∧
+    (afterCall sofoMachine (n + 2) fromApi bits c r).m.shutdownReason = r.1.shutdownReason := by
+  unfold afterCall
+  cases hr : r.2 with
+  | ok a =>
+    simp only
+    have h1 := SOFO.handle_m n bits { c with m := r.1 } a
+    have h2 := finish_fields fromApi (handleAction sofoMachine (n + 2) bits { c with m := r.1 } a)
+    rw [h2.2.2.2.2.2.1]
+    exact h1
+  | err e => simp
+  | panic => simp
+
+theorem SOFO.ct_stable (m : SOFO) (name pid : Nat) (r : Reason) (now : Int) (h : m.shutdown = true) :
+    (m.childTerminated name pid r now).1.shutdown = true ∧
+    (m.childTerminated name pid r now).1.shutdownReason = m.shutdownReason := by
+  have := SOFO.ct_shape m name pid r now
+  simp only at this
+  rcases this.2 with ⟨_, h1, h2, _⟩ | ⟨h0, _⟩ | ⟨h0, _⟩
+  · exact ⟨h1, h2⟩
+  · rw [h] at h0; simp at h0
+  · rw [h] at h0; simp at h0
+
+theorem SOFO.step_stable (n : Nat) (c c' : Loop SOFO) (l : Label) (hs : step sofoMachine (n + 2) c l = some c')
+    (h : c.m.shutdown = true) : c'.m.shutdown = true ∧ c'.m.shutdownReason = c.m.shutdownReason := by
+  cases l with
+  | die pid r =>
+    simp only [step] at hs
+    split at hs; · simp at hs
+    split at hs
+    · simp only [Option.some.injEq] at hs; subst hs; exact ⟨h, rfl⟩
+    · simp at hs
+  | deliver pid now bits =>
+    simp only [step] at hs
+    split at hs; · simp at hs
+    split at hs; · simp at hs
+    simp only [Option.some.injEq] at hs; subst hs
+    have h1 := SOFO.afterCall_m n false bits
+      { c with inflight := c.inflight.filter (fun p => p.1 ≠ pid), kids := c.kids.filter (fun p => p.1 ≠ pid), noticed := pid :: c.noticed }
+      (sofoMachine.childTerminated c.m (lookupKid pid c.kids) pid ‹_› now)
+    have h2 := SOFO.ct_stable c.m (lookupKid pid c.kids) pid ‹_› now h
+    exact ⟨h1.1.trans h2.1, h1.2.trans h2.2⟩
+  | foreign r now bits =>
+    simp only [step] at hs
+    split at hs; · simp at hs
+    simp only [Option.some.injEq] at hs; subst hs
+    have h1 := SOFO.afterCall_m n false bits { c with nextPid := c.nextPid + 1 } (sofoMachine.childTerminated c.m 0 c.nextPid r now)
+    have h2 := SOFO.ct_stable c.m 0 c.nextPid r now h
+    exact ⟨h1.1.trans h2.1, h1.2.trans h2.2⟩
+  | startChild name args bits =>
+    simp only [step] at hs
+    split at hs; · simp at hs
+    simp only [Option.some.injEq] at hs; subst hs
+    have h1 := SOFO.afterCall_m n true bits c
+    rcases SOFO.childSpec_cases c.m name with h2 | ⟨e, h2⟩ | ⟨_, _, _, h2⟩
+    · simp only [sofoMachine, h2]
+      have := h1 (c.m, Res.ok (if args > 0 then { ({} : Action) with spec := { ({} : Action).spec with args := args } } else {}))
+      exact ⟨this.1.trans h, this.2⟩
+    · simp only [sofoMachine, h2]
+      have := h1 (c.m, Res.err e)
+      exact ⟨this.1.trans h, this.2⟩
+    · rw [h] at h2; simp at h2
+  | addChild name sig bits =>
+    simp only [step] at hs
+    split at hs; · simp at hs
+    simp only [Option.some.injEq] at hs; subst hs
+    have h1 := SOFO.afterCall_m n true bits c (sofoMachine.childAddSpec c.m name sig)
+    have h2 : sofoMachine.childAddSpec c.m name sig = (c.m, .err .shuttingDown) := by simp [sofoMachine, SOFO.childAddSpec, h]
+    rw [h2] at h1 ⊢
+    exact ⟨h1.1.trans h, h1.2⟩
+  | enable name bits =>
+    simp only [step] at hs
+    split at hs; · simp at hs
+    simp only [Option.some.injEq] at hs; subst hs
+    have h1 := SOFO.afterCall_m n true bits c (sofoMachine.childEnable c.m name)
+    have h2 : sofoMachine.childEnable c.m name = (c.m, .err .shuttingDown) := by simp [sofoMachine, SOFO.childEnable, h]
+    rw [h2] at h1 ⊢
+    exact ⟨h1.1.trans h, h1.2⟩
+  | disable name =>
+    simp only [step] at hs
+    split at hs; · simp at hs
+    simp only [Option.some.injEq] at hs; subst hs
+    have h1 := SOFO.afterCall_m n true [] c (sofoMachine.childDisable c.m name)
+    have h2 : sofoMachine.childDisable c.m name = (c.m, .err .shuttingDown) := by simp [sofoMachine, SOFO.childDisable, h]
+    rw [h2] at h1 ⊢
+    exact ⟨h1.1.trans h, h1.2⟩
+
 end ErgoVerif.Sup
